@@ -197,96 +197,86 @@ Section Sem.
       end
     else OInvalid (Invalid (TypeErr (type_of mt)) x self).
 
-  (* ---------- item loops ---------- *)
+  (* ---------- child calls ----------
+     Every container body is: compute the list of child calls, run them in
+     order ([run_calls]), then post-process the list of outcomes in order.
+     An abnormal child outcome (assertion, exception, out of fuel) ends the
+     list, exactly as a Python exception ends the loop. *)
 
-  (* list / uniform tuple loop: every item is validated; errors keyed by index *)
-  Fixpoint items_loop (rec : runner) (item : validator) (i : nat) (xs : list pyval)
+  Definition call := (validator * pyval)%type.
+
+  Fixpoint run_calls (stop_valid : bool) (rec : runner) (cs : list call) : list outcome :=
+    match cs with
+    | [] => []
+    | (v, x) :: rest =>
+        match rec v x with
+        | OValid w => if stop_valid then [OValid w] else OValid w :: run_calls stop_valid rec rest
+        | OInvalid i => OInvalid i :: run_calls stop_valid rec rest
+        | o => [o]
+        end
+    end.
+
+  (* list / uniform tuple / n-tuple: payloads in order, errors keyed by index *)
+  Fixpoint collect_items (i : nat) (outs : list outcome)
     : outcome + (list pyval * list (nat * invalid)) :=
-    match xs with
+    match outs with
     | [] => inr ([], [])
-    | x :: xs' =>
-        match rec item x with
-        | OValid w =>
-            match items_loop rec item (S i) xs' with
-            | inl o => inl o
-            | inr (ws, errs) => inr (w :: ws, errs)
-            end
-        | OInvalid inv =>
-            match items_loop rec item (S i) xs' with
-            | inl o => inl o
-            | inr (ws, errs) => inr (ws, (i, inv) :: errs)
-            end
-        | o => inl o
+    | OValid w :: r =>
+        match collect_items (S i) r with
+        | inl o => inl o
+        | inr (ws, errs) => inr (w :: ws, errs)
         end
+    | OInvalid inv :: r =>
+        match collect_items (S i) r with
+        | inl o => inl o
+        | inr (ws, errs) => inr (ws, (i, inv) :: errs)
+        end
+    | o :: _ => inl o
     end.
 
-  (* set loop: payload built with set.add while no error has been seen *)
-  Fixpoint set_loop (rec : runner) (item : validator) (xs : list pyval)
-           (acc : list pyval) (errs : list invalid)
+  (* set: payload built with set.add while no error has been seen *)
+  Fixpoint collect_set (outs : list outcome) (acc : list pyval) (errs : list invalid)
     : outcome + (list pyval * list invalid) :=
-    match xs with
+    match outs with
     | [] => inr (acc, errs)
-    | x :: xs' =>
-        match rec item x with
-        | OValid w =>
-            match errs with
-            | [] =>
-                if hashable (chashable E) w then set_loop rec item xs' (set_add acc w) errs
-                else inl (ORaise ExType)
-            | _ => set_loop rec item xs' acc errs
-            end
-        | OInvalid inv => set_loop rec item xs' acc (errs ++ [inv])
-        | o => inl o
+    | OValid w :: r =>
+        match errs with
+        | [] =>
+            if hashable (chashable E) w then collect_set r (set_add acc w) errs
+            else inl (ORaise ExType)
+        | _ => collect_set r acc errs
         end
+    | OInvalid inv :: r => collect_set r acc (errs ++ [inv])
+    | o :: _ => inl o
     end.
 
-  (* n-tuple loop: zip(fields, values) *)
-  Fixpoint fields_loop (rec : runner) (fields : list validator) (i : nat) (xs : list pyval)
-    : outcome + (list pyval * list (nat * invalid)) :=
-    match fields, xs with
-    | f :: fields', x :: xs' =>
-        match rec f x with
-        | OValid w =>
-            match fields_loop rec fields' (S i) xs' with
-            | inl o => inl o
-            | inr (ws, errs) => inr (w :: ws, errs)
-            end
-        | OInvalid inv =>
-            match fields_loop rec fields' (S i) xs' with
-            | inl o => inl o
-            | inr (ws, errs) => inr (ws, (i, inv) :: errs)
-            end
-        | o => inl o
-        end
-    | _, _ => inr ([], [])
-    end.
-
-  (* map loop: key then value of every pair *)
-  Fixpoint map_loop (rec : runner) (kv vv : validator) (kvs : list (pyval * pyval))
+  (* map: outcomes come as key, value, key, value, ...; errors keyed by the original key *)
+  Fixpoint collect_map (keys : list pyval) (outs : list outcome)
            (acc : list (pyval * pyval))
            (errs : list (pyval * (option invalid * option invalid)))
     : outcome + (list (pyval * pyval) * list (pyval * (option invalid * option invalid))) :=
-    match kvs with
-    | [] => inr (acc, errs)
-    | (k, v) :: rest =>
-        match rec kv k with
-        | (OValid _ | OInvalid _) as kr =>
-            match rec vv v with
-            | (OValid _ | OInvalid _) as vr =>
-                match kr, vr with
+    match keys, outs with
+    | k :: keys', ko :: vo :: r =>
+        match ko with
+        | OValid _ | OInvalid _ =>
+            match vo with
+            | OValid _ | OInvalid _ =>
+                match ko, vo with
                 | OValid kw, OValid vw =>
                     if hashable (chashable E) kw
-                    then map_loop rec kv vv rest (dict_set acc kw vw) errs
+                    then collect_map keys' r (dict_set acc kw vw) errs
                     else inl (ORaise ExType)
                 | _, _ =>
-                    let ke := match kr with OInvalid i => Some i | _ => None end in
-                    let ve := match vr with OInvalid i => Some i | _ => None end in
-                    map_loop rec kv vv rest acc (errs ++ [(k, (ke, ve))])
+                    let ke := match ko with OInvalid i => Some i | _ => None end in
+                    let ve := match vo with OInvalid i => Some i | _ => None end in
+                    collect_map keys' r acc (errs ++ [(k, (ke, ve))])
                 end
             | o => inl o
             end
         | o => inl o
         end
+    | _ :: _, [o] => inl o
+    | _, _ => inr (acc, errs)
     end.
 
   (* ---------- collection bodies ---------- *)
@@ -299,10 +289,12 @@ Section Sem.
     | Ok fs => Some (OInvalid (Invalid (PredicateErrs fs) y self))
     end.
 
-  Definition list_body (rec : runner) (self item : validator) (ps : list predicate)
+  (* ListValidator / UniformTupleValidator *)
+  Definition seq_body (exact dest : pytype) (wrap : list pyval -> pyval)
+             (rec : runner) (self item : validator) (ps : list predicate)
              (aps : list apredicate) (co : option coercer) (m : mode) (x : pyval) : outcome :=
     if mode_eqb m Sync && nonempty aps then OAssert else
-    match gate co TList TList x with
+    match gate co exact dest x with
     | inl e => OInvalid (Invalid e x self)
     | inr y =>
         match pred_stage self m ps aps y with
@@ -311,35 +303,17 @@ Section Sem.
             match py_iter y with
             | Exn e => ORaise e
             | Ok xs =>
-                match items_loop rec item 0 xs with
+                match collect_items 0 (run_calls false rec (map (fun xi => (item, xi)) xs)) with
                 | inl o => o
-                | inr (ws, []) => OValid (VList ws)
+                | inr (ws, []) => OValid (wrap ws)
                 | inr (_, errs) => OInvalid (Invalid (IndexErrs errs) y self)
                 end
             end
         end
     end.
 
-  Definition utuple_body (rec : runner) (self item : validator) (ps : list predicate)
-             (aps : list apredicate) (co : option coercer) (m : mode) (x : pyval) : outcome :=
-    if mode_eqb m Sync && nonempty aps then OAssert else
-    match gate co TTuple TList x with          (* the code reports dest type [list] *)
-    | inl e => OInvalid (Invalid e x self)
-    | inr y =>
-        match pred_stage self m ps aps y with
-        | Some o => o
-        | None =>
-            match py_iter y with
-            | Exn e => ORaise e
-            | Ok xs =>
-                match items_loop rec item 0 xs with
-                | inl o => o
-                | inr (ws, []) => OValid (VTuple ws)
-                | inr (_, errs) => OInvalid (Invalid (IndexErrs errs) y self)
-                end
-            end
-        end
-    end.
+  Definition list_body := seq_body TList TList VList.
+  Definition utuple_body := seq_body TTuple TList VTuple.   (* the code reports dest type [list] *)
 
   Definition set_body (rec : runner) (self item : validator) (ps : list predicate)
              (aps : list apredicate) (co : option coercer) (m : mode) (x : pyval) : outcome :=
@@ -353,7 +327,7 @@ Section Sem.
             match py_iter y with
             | Exn e => ORaise e
             | Ok xs =>
-                match set_loop rec item xs [] [] with
+                match collect_set (run_calls false rec (map (fun xi => (item, xi)) xs)) [] [] with
                 | inl o => o
                 | inr (ws, []) => OValid (VSet ws)
                 | inr (_, errs) => OInvalid (Invalid (SetErrs errs) y self)
@@ -390,7 +364,7 @@ Section Sem.
             match py_iter y with
             | Exn e => ORaise e
             | Ok xs =>
-                match fields_loop rec fields 0 xs with
+                match collect_items 0 (run_calls false rec (combine fields xs)) with
                 | inl o => o
                 | inr (ws, []) => obj_stage self m vobj None (VTuple ws)
                 | inr (_, errs) => OInvalid (Invalid (IndexErrs errs) y self)
@@ -401,6 +375,9 @@ Section Sem.
 
   Definition as_dict (y : pyval) : option (list (pyval * pyval)) :=
     match unsub y with VDict kvs => Some kvs | _ => None end.
+
+  Definition map_calls (kv vv : validator) (kvs : list (pyval * pyval)) : list call :=
+    flat_map (fun p => [(kv, fst p); (vv, snd p)]) kvs.
 
   Definition map_body (rec : runner) (self kv vv : validator) (ps : list predicate)
              (aps : list apredicate) (co : option coercer) (m : mode) (x : pyval) : outcome :=
@@ -414,7 +391,7 @@ Section Sem.
             match as_dict y with
             | None => ORaise ExAttribute
             | Some kvs =>
-                match map_loop rec kv vv kvs [] [] with
+                match collect_map (map fst kvs) (run_calls false rec (map_calls kv vv kvs)) [] [] with
                 | inl o => o
                 | inr (d, []) => OValid (VDict d)
                 | inr (_, errs) => OInvalid (Invalid (MapErr errs) y self)
@@ -432,18 +409,26 @@ Section Sem.
   (* how an absent optional key contributes to the payload *)
   Inductive absent_policy := AbsNothing | AbsOmit.
 
-  (* per-declared-key loop.  [keys]: (key, validator actually called, required).
-     Result payload is the association list of (key, child payload). *)
-  Fixpoint keys_loop (rec : runner) (self : validator) (pol : absent_policy)
+  (* the calls of the per-declared-key loop: one per present declared key.
+     [keys]: (key, (validator actually called, required)) *)
+  Definition key_calls (keys : list (pyval * (validator * bool))) (data : list (pyval * pyval))
+    : list call :=
+    flat_map (fun k => match dict_get data (fst k) with
+                       | Some xv => [(fst (snd k), xv)]
+                       | None => []
+                       end) keys.
+
+  (* walk the declared keys, consuming one outcome per present key *)
+  Fixpoint collect_keys (self : validator) (pol : absent_policy)
            (keys : list (pyval * (validator * bool))) (data : list (pyval * pyval))
-           (orig : pyval)
+           (orig : pyval) (outs : list outcome)
     : outcome + (list (pyval * pyval) * list (pyval * invalid)) :=
     match keys with
     | [] => inr ([], [])
-    | (k, (v, required)) :: keys' =>
+    | (k, (_, required)) :: keys' =>
         match dict_get data k with
         | None =>
-            match keys_loop rec self pol keys' data orig with
+            match collect_keys self pol keys' data orig outs with
             | inl o => inl o
             | inr (ws, errs) =>
                 if required then inr (ws, (k, Invalid MissingKeyErr orig self) :: errs)
@@ -452,31 +437,42 @@ Section Sem.
                      | AbsOmit => inr (ws, errs)
                      end
             end
-        | Some xv =>
-            match rec v xv with
-            | OValid w =>
-                match keys_loop rec self pol keys' data orig with
+        | Some _ =>
+            match outs with
+            | OValid w :: r =>
+                match collect_keys self pol keys' data orig r with
                 | inl o => inl o
                 | inr (ws, errs) => inr ((k, w) :: ws, errs)
                 end
-            | OInvalid inv =>
-                match keys_loop rec self pol keys' data orig with
+            | OInvalid inv :: r =>
+                match collect_keys self pol keys' data orig r with
                 | inl o => inl o
                 | inr (ws, errs) => inr (ws, (k, inv) :: errs)
                 end
-            | o => inl o
+            | o :: _ => inl o
+            | [] => inl (ORaise ExOther)       (* unreachable: one outcome per present key *)
             end
         end
     end.
 
+  Definition keys_loop (rec : runner) (self : validator) (pol : absent_policy)
+             (keys : list (pyval * (validator * bool))) (data : list (pyval * pyval))
+             (orig : pyval) :=
+    collect_keys self pol keys data orig (run_calls false rec (key_calls keys data)).
+
   Definition is_required_marker (v : validator) : bool :=
     match v with KeyNotRequired _ => false | _ => true end.
+
+  Definition has_some {A} (o : option A) : bool := match o with Some _ => true | None => false end.
+
+  Definition record_keys (keys : list (pyval * validator)) :=
+    map (fun kv => (fst kv, (snd kv, is_required_marker (snd kv)))) keys.
 
   (* RecordValidator *)
   Definition record_body (rec : runner) (self : validator) (keys : list (pyval * validator))
              (into : nat) (vobj avobj : option nat) (strict : bool) (m : mode) (x : pyval)
     : outcome :=
-    if mode_eqb m Sync && (match avobj with Some _ => true | None => false end) then OAssert else
+    if mode_eqb m Sync && has_some avobj then OAssert else
     if negb (isinstance (ckind E) x TDict) then OInvalid (Invalid (TypeErr TDict) x self) else
     match as_dict x with
     | None => ORaise ExOther
@@ -484,9 +480,7 @@ Section Sem.
         if strict && has_unknown_key (map fst keys) data
         then OInvalid (Invalid (ExtraKeysErr (map fst keys)) x self)
         else
-          match keys_loop rec self AbsNothing
-                          (map (fun kv => (fst kv, (snd kv, is_required_marker (snd kv)))) keys)
-                          data x with
+          match keys_loop rec self AbsNothing (record_keys keys) data x with
           | inl o => o
           | inr (ws, []) => obj_stage self m vobj avobj (uinto E into (map snd ws))
           | inr (_, errs) => OInvalid (Invalid (KeyErrs errs) x self)
@@ -496,19 +490,19 @@ Section Sem.
   Definition unwrap_knr (v : validator) : validator :=
     match v with KeyNotRequired inner => inner | _ => v end.
 
+  Definition dictany_keys (schema : list (pyval * validator)) :=
+    map (fun kv => (fst kv, (unwrap_knr (snd kv), is_required_marker (snd kv)))) schema.
+
   (* DictValidatorAny *)
   Definition dictany_body (rec : runner) (self : validator) (schema : list (pyval * validator))
              (vobj avobj : option nat) (strict : bool) (m : mode) (x : pyval) : outcome :=
-    if mode_eqb m Sync && (match avobj with Some _ => true | None => false end) then OAssert else
+    if mode_eqb m Sync && has_some avobj then OAssert else
     match x with
     | VDict data =>
         if strict && has_unknown_key (map fst schema) data
         then OInvalid (Invalid (ExtraKeysErr (map fst schema)) x self)
         else
-          match keys_loop rec self AbsOmit
-                          (map (fun kv => (fst kv, (unwrap_knr (snd kv), is_required_marker (snd kv))))
-                               schema)
-                          data x with
+          match keys_loop rec self AbsOmit (dictany_keys schema) data x with
           | inl o => o
           | inr (ws, []) => obj_stage self m vobj avobj (VDict ws)
           | inr (_, errs) => OInvalid (Invalid (KeyErrs errs) x self)
@@ -555,7 +549,7 @@ Section Sem.
   Definition class_body (rec : runner) (self : validator) (rk : record_kind) (c : classid)
              (schema : list (pyval * (validator * bool))) (vobj avobj : option nat)
              (strict : bool) (co : option coercer) (m : mode) (x : pyval) : outcome :=
-    if mode_eqb m Sync && (match avobj with Some _ => true | None => false end) then OAssert else
+    if mode_eqb m Sync && has_some avobj then OAssert else
     match class_gate rk c co x with
     | inl e => OInvalid (Invalid e x self)
     | inr y =>
@@ -578,25 +572,21 @@ Section Sem.
   (* ---------- unions and wrappers ---------- *)
 
   (* _union_validator: first accepting variant wins; later ones are not consulted *)
-  Fixpoint union_loop (rec : runner) (vs : list validator) (x : pyval)
-    : outcome + list invalid :=
-    match vs with
+  Fixpoint collect_union (outs : list outcome) : outcome + list invalid :=
+    match outs with
     | [] => inr []
-    | v :: vs' =>
-        match rec v x with
-        | OValid w => inl (OValid w)
-        | OInvalid inv =>
-            match union_loop rec vs' x with
-            | inl o => inl o
-            | inr errs => inr (inv :: errs)
-            end
-        | o => inl o
+    | OValid w :: _ => inl (OValid w)
+    | OInvalid inv :: r =>
+        match collect_union r with
+        | inl o => inl o
+        | inr errs => inr (inv :: errs)
         end
+    | o :: _ => inl o
     end.
 
   Definition union_body (rec : runner) (self : validator) (vs : list validator) (x : pyval)
     : outcome :=
-    match union_loop rec vs x with
+    match collect_union (run_calls true rec (map (fun v => (v, x)) vs)) with
     | inl o => o
     | inr errs => OInvalid (Invalid (UnionErrs errs) x self)
     end.
